@@ -1223,6 +1223,8 @@ template <typename S, typename T> static void large_region_reads(int rank, bool 
                     size_t lin = rank == 1 ? (size_t)off[0] + c : ((size_t)off[0] + r) * W + (size_t)off[1] + c;
                     double v = (double)lin;
                     if (calibrated) v = 1.0 + 2.0 * (v - 3.0);
+                    // a value the requested type cannot represent converts to a don't-care (the first samples are negative when calibrated)
+                    if (v < (double)std::numeric_limits<T>::lowest() || v > (double)std::numeric_limits<T>::max()) { vf::count("cells_outside_the_target_range"); continue; }
                     want = T(v);
                 }
                 vf::count("cell_reads");
